@@ -14,9 +14,7 @@ class C06(Spec):
                   "return value, Valid, Key, Value) over generated sequences, and the property predicate is evaluated on "
                   "the implementation against an independent in-harness sorted map.")
     level_note = ("goleveldb/memdb/badger internals are not modelled: the model is the ordered map the property names; "
-                  "Badger is driven without 0xff bytes and without empty stored keys; iterators are not interleaved with writes; "
-                  "one residual Badger deviation (first Next of a fresh reverse iterator acts as Rewind) is mirrored by "
-                  "the model and reported as a finding, the scan theorems do not cover it.")
+                  "Badger is driven without 0xff bytes and without empty stored keys; iterators are not interleaved with writes.")
     assumptions = (
         "goleveldb / memdb / badger storage engines behave as the ordered map of the model (this is what the differential run checks)",
         "an open iterator is never interleaved with writes (snapshot vs. live iteration is not distinguished)",
